@@ -464,9 +464,18 @@ impl PartitionSampler {
         let mut bin_validators = vec![Vec::new(); num_bins];
         let mut bin_stakes = vec![Vec::new(); num_bins];
 
-        let total_stake: Stake = validators.iter().map(|v| v.stake).sum();
-        let stake_per_bin = total_stake.div_ceil(num_bins as u64);
         let mut validators_random = validators;
+        let total_stake: Stake = validators_random.iter().map(|v| v.stake).sum();
+        let mut stake_per_bin = total_stake.div_ceil(num_bins as u64);
+        // With only a few units of stake per bin, rounding the bin size up leaves the
+        // last bins empty. Split each unit into `num_bins` parts then, so that the
+        // stake divides evenly and every bin is filled.
+        if stake_per_bin.inner() * (num_bins as u64 - 1) >= total_stake.inner() {
+            for v in &mut validators_random {
+                v.stake = Stake::new(v.stake.inner() * num_bins as u64);
+            }
+            stake_per_bin = total_stake;
+        }
         // NOTE: All nodes have to derive the same partition, otherwise they disagree on
         // the relays. So the shuffle is seeded with a constant instead of the thread RNG.
         validators_random.shuffle(&mut StdRng::from_seed(*b"ALPENGLOW-PARTITION-SAMPLER-SEED"));
